@@ -18,7 +18,9 @@ NonEmptySubsets(nv) == SubsetSeqs(0..(nv - 1)) \ {<<>>}
 \* beyond the exhaustive bound: fixed meshes whose triangles interleave over the vertices (two skin partitions built from
 \* alternate triangles get vertex maps that are not prefixes of the vertex list), with every subset of at most two indices
 BigMeshes == {[nv |-> 7, tris |-> <<<<0, 2, 3>>, <<1, 4, 5>>, <<3, 5, 6>>, <<2, 4, 6>>>>],
-              [nv |-> 8, tris |-> <<<<1, 3, 5>>, <<0, 2, 4>>, <<3, 5, 7>>, <<2, 4, 6>>, <<0, 1, 7>>>>]}
+              [nv |-> 8, tris |-> <<<<1, 3, 5>>, <<0, 2, 4>>, <<3, 5, 7>>, <<2, 4, 6>>, <<0, 1, 7>>>>],
+              \* triangles with equal corners (exporters leave them behind): triangles like any other
+              [nv |-> 6, tris |-> <<<<0, 1, 2>>, <<3, 3, 4>>, <<2, 4, 5>>, <<1, 1, 1>>, <<3, 4, 5>>>>]}
 SmallSubsets(nv) == {<<a>> : a \in 0..(nv - 1)} \cup {q \in [1..2 -> 0..(nv - 1)] : q[1] < q[2]}
 \* C17: segmentation info with ids permuted: seg A (+ two subs), seg B; label lists over the ids and -1
 SegInfos == {<<[id |-> 0, subs |-> <<1, 2>>], [id |-> 3, subs |-> <<>>]>>, <<[id |-> 2, subs |-> <<0>>], [id |-> 1, subs |-> <<>>]>>,
